@@ -420,13 +420,32 @@ func TestC02Free(t *testing.T) {
 					if op%2 == 0 {
 						if r, ok := rw.TryLock(false); ok {
 							runtime.Gosched()
-							r()
+							if op%6 == 0 {
+								// the same release function called by two goroutines at once: one release
+								var rwg sync.WaitGroup
+								for i := 0; i < 2; i++ {
+									rwg.Add(1)
+									go func() { defer rwg.Done(); r() }()
+								}
+								rwg.Wait()
+							} else {
+								r()
+							}
 						}
 					} else {
 						ctx, cancel := context.WithCancel(context.Background())
 						go cancel()
 						if r, err := rw.Lock(ctx, false); err == nil {
-							r()
+							if op%3 == 0 {
+								var rwg sync.WaitGroup
+								for i := 0; i < 2; i++ {
+									rwg.Add(1)
+									go func() { defer rwg.Done(); r() }()
+								}
+								rwg.Wait()
+							} else {
+								r()
+							}
 						}
 						cancel()
 					}
@@ -757,6 +776,30 @@ func TestC15Free(t *testing.T) {
 					default:
 						look(c2.GetValue(), "GetValue")
 						lookWide(c3.GetValue(), "GetValue")
+						switch op % 5 {
+						case 0:
+							// a waiter on the stamped cell while several writers store into it
+							ctx, cancel := context.WithCancel(context.Background())
+							old := c2.GetValue()
+							go cancel()
+							if x, err := c2.WaitValueChange(ctx, old, nil); err == nil {
+								if x == old {
+									f.add("C15", "ccontainer:condition-not-satisfied", "WaitValueChange(%d) returned %d", old, x)
+								}
+								look(x, "WaitValueChange")
+							}
+							cancel()
+						case 1:
+							// a validator that reads the container it is waiting on
+							x, err := c2.WaitValueWithValidator(context.Background(), func(v int) (bool, error) {
+								_ = c2.GetValue()
+								return true, nil
+							}, nil)
+							if err != nil {
+								f.add("C15", "ccontainer:error-source", "WaitValueWithValidator with an accepting validator returned %v", err)
+							}
+							look(x, "WaitValueWithValidator")
+						}
 					}
 				}
 			})
@@ -871,6 +914,70 @@ func TestC18Free(t *testing.T) {
 				}
 			}
 			mu.Unlock()
+		})
+}
+
+// ---- C04: never two instances at once, also when the mutators run in parallel ----
+
+func TestC04Free(t *testing.T) {
+	drive(t, "C04", "one StateRoutineContainer with a context; 2..10 goroutines x 1..16 ops {SetState(fresh|same), SwapValue, SetStateRoutine(new function|nil), RestartRoutine, SetContext(new, restart)} with real parallelism; every managed function counts itself in, stays until its context is cancelled and then takes a few yields to return; oracle: the count never exceeds one; non-trivial iff >= 2 goroutines; distinct by program", 16,
+		func(cs Case, v *ev.Verdict) {
+			f := &failer{v: v}
+			var active, entered atomic.Int32
+			mk := func(id int) routine.StateRoutine[int] {
+				return func(ctx context.Context, st int) error {
+					entered.Add(1)
+					if n := active.Add(1); n > 1 {
+						f.add("C04", "routine:overlap", "%d instances of the managed function are executing at once (function %d, state %d)", n, id, st)
+					}
+					<-ctx.Done()
+					for i := 0; i < id%4; i++ {
+						runtime.Gosched()
+					}
+					active.Add(-1)
+					return ctx.Err()
+				}
+			}
+			sc := routine.NewStateRoutineContainer[int](func(a, b int) bool { return a == b })
+			root, cancel := context.WithCancel(context.Background())
+			defer cancel()
+			sc.SetContext(root, false)
+			sc.SetStateRoutine(mk(0))
+			sc.SetState(1)
+			var nextState atomic.Int32
+			nextState.Store(1)
+			parallel(len(cs.G), func(g int) {
+				for k, op := range cs.G[g] {
+					switch op % 6 {
+					case 0:
+						sc.SetState(int(nextState.Add(1)))
+					case 1:
+						sc.SwapValue(func(x int) int { return x + 1000 })
+					case 2:
+						sc.SetStateRoutine(mk(1 + g*100 + k))
+					case 3:
+						if op%12 == 3 {
+							sc.SetStateRoutine(nil)
+						} else {
+							sc.SetState(int(nextState.Load()))
+						}
+					case 4:
+						sc.RestartRoutine()
+					default:
+						ctx, c2 := context.WithCancel(root)
+						_ = c2
+						sc.SetContext(ctx, op%2 == 0)
+					}
+				}
+			})
+			sc.ClearContext()
+			cancel()
+			for spin := 0; spin < 4000000 && active.Load() != 0; spin++ {
+				runtime.Gosched()
+			}
+			if n := active.Load(); n != 0 {
+				f.add("C05", "routine:instance-survives-clear", "%d instance(s) still executing after ClearContext and cancelling the root context", n)
+			}
 		})
 }
 
